@@ -183,6 +183,40 @@ func mutateJSON(v interface{}, rng *rand.Rand) (interface{}, string) {
 	if len(ps) == 0 {
 		return v, "none"
 	}
+	// a value that is reachable by two member paths (OpenConfig key leaves: <k> and config/<k>):
+	// put the same non-scalar at both
+	if rng.Intn(6) == 0 {
+		type twin struct {
+			o, c map[string]interface{}
+			k    string
+		}
+		var tw []twin
+		for _, q := range ps {
+			o, ok := q.parent.(map[string]interface{})
+			if !ok || q.idx >= 0 {
+				continue
+			}
+			for _, cn := range []string{"config", "state"} {
+				if c, ok := o[cn].(map[string]interface{}); ok {
+					if _, has := c[q.key]; has {
+						tw = append(tw, twin{o, c, q.key})
+					}
+				}
+			}
+		}
+		if len(tw) > 0 {
+			t := tw[rng.Intn(len(tw))]
+			vals := []func() interface{}{
+				func() interface{} { return []interface{}{"a"} },
+				func() interface{} { return map[string]interface{}{"x": 1.0} },
+				func() interface{} { return []interface{}{[]interface{}{1.0}} },
+				func() interface{} { return []interface{}{} },
+			}
+			mk := vals[rng.Intn(len(vals))]
+			t.o[t.k], t.c[t.k] = mk(), mk()
+			return v, "same-nonscalar-at-both-key-paths"
+		}
+	}
 	p := ps[rng.Intn(len(ps))]
 	repl := []struct {
 		name string
